@@ -257,6 +257,57 @@ static void on_abort(const dsim::Result &r)
 }
 
 // ------------------------------------------------------------------------------------------------
+static std::vector<int64_t> g_ref;
+const std::vector<int64_t> &reference_data() { return g_ref; }
+
+static void write_all(int fd, const void *p, size_t n);
+static bool read_all(int fd, void *p, size_t n)
+{
+  char *c = static_cast<char *>(p);
+  while (n > 0) {
+    ssize_t k = read(fd, c, n);
+    if (k <= 0) {
+      if (k < 0 && errno == EINTR) continue;
+      return false;
+    }
+    c += k;
+    n -= static_cast<size_t>(k);
+  }
+  return true;
+}
+
+// reference data computed in a cold child of this (pristine) controller process
+static bool compute_reference(const Program &p)
+{
+  g_ref.clear();
+  if (!g_scn || !g_scn->reference) return true;
+  int fds[2];
+  if (pipe(fds) != 0) return false;
+  fflush(stdout);
+  fflush(stderr);
+  pid_t pid = fork();
+  if (pid == 0) {
+    close(fds[0]);
+    std::vector<int64_t> out;
+    g_scn->reference(p, out);
+    uint64_t n = out.size();
+    write_all(fds[1], &n, sizeof(n));
+    write_all(fds[1], out.data(), n * sizeof(int64_t));
+    _exit(0);
+  }
+  close(fds[1]);
+  uint64_t n = 0;
+  bool ok = read_all(fds[0], &n, sizeof(n)) && n < (1u << 24);
+  if (ok) {
+    g_ref.resize(n);
+    ok = read_all(fds[0], g_ref.data(), n * sizeof(int64_t));
+  }
+  close(fds[0]);
+  int st;
+  waitpid(pid, &st, 0);
+  return ok;
+}
+
 static dsim::Result execute(RunSpec &rs)
 {
   dsim::Config cfg = rs.cfg;
@@ -280,6 +331,7 @@ struct EvalOut {
 static EvalOut eval_in_child(const Program &p, RunSpec rs, bool strict, bool trace = false)
 {
   EvalOut out;
+  if (!compute_reference(p)) return out;
   int fds[2];
   if (pipe(fds) != 0) return out;
   fflush(stdout);
@@ -601,7 +653,42 @@ static int cmd_explore(std::map<std::string, std::string> &a)
     g_cur.cfg.fault_seed = dsim::mix64(seed_i, 4);
     g_scn->generate(g_prog, g_cur.cfg, prog_rng, cfg_rng, family, profile);
     g_cur_index = idx;
-    dsim::Result r = execute(g_cur);
+    dsim::Result r;
+    uint64_t run_probes[64];
+    if (g_scn->reference != nullptr) {
+      // one run per freshly forked child of this pristine process (cold process-global state), reference data from another
+      if (!compute_reference(g_prog)) {
+        fprintf(stderr, "cannot compute the reference data\n");
+        return 2;
+      }
+      int fds[2];
+      if (pipe(fds) != 0) return 2;
+      fflush(stdout);
+      fflush(stderr);
+      pid_t pid = fork();
+      if (pid == 0) {
+        close(fds[0]);
+        dsim::Result cr = execute(g_cur);  // an abnormal end writes the replay file, prints RUN-ABORT and exits with status 3
+        cr.choices = nullptr;
+        uint64_t pb[64];
+        for (int k = 0; k < 64; ++k) pb[k] = dsim::probe_count(k);
+        write_all(fds[1], &cr, sizeof(cr));
+        write_all(fds[1], pb, sizeof(pb));
+        _exit(0);
+      }
+      close(fds[1]);
+      const bool ok = read_all(fds[0], &r, sizeof(r)) && read_all(fds[0], run_probes, sizeof(run_probes));
+      close(fds[0]);
+      int st = 0;
+      waitpid(pid, &st, 0);
+      if (!ok) {
+        fflush(stdout);
+        _exit(WIFEXITED(st) && WEXITSTATUS(st) == 3 ? 3 : 75);
+      }
+    } else {
+      r = execute(g_cur);
+      for (int k = 0; k < 64; ++k) run_probes[k] = dsim::probe_count(k);
+    }
     evals++;
     last_index = idx;
     steps += r.steps;
@@ -613,7 +700,7 @@ static int cmd_explore(std::map<std::string, std::string> &a)
     uaf_notes += r.uaf_notes;
     strat[g_cur.cfg.strategy]++;
     for (int k = 0; k < dsim::kFaultKinds; ++k) faults[k] += r.faults[k];
-    for (int k = 0; k < 64; ++k) probes[k] += dsim::probe_count(k);
+    for (int k = 0; k < 64; ++k) probes[k] += run_probes[k];
     if (tf) fprintf(tf, "%" PRIu64 " %016" PRIx64 " %016" PRIx64 " %" PRIu64 "\n", idx, g_prog.hash(), r.trace_hash, r.steps);
     const bool nt = (r.max_api_overlap >= 2 && r.switches_in_api >= 1) || r.forced_nontrivial;
     if (nt) {
